@@ -328,6 +328,14 @@ def check_categorical_order(ctx, rule: str):
     tr = [n for n in walk_no_nested(fi.node) if isinstance(n, ast.Assign) and unparse(n.targets[0]) == "target_rates"]
     ok = len(tr) == 1 and "target_rate" in unparse(tr[0].value) and const_value(kwarg(tr[0].value, "ascending")) is True and unparse(kwarg(tr[0].value, "y")) == "y"
     ctx.ob(rule, construct(fi, "categorical modalities are ordered by increasing training target rate"), ok, loc(fi))
+    # the rate of the default group is the rate of its pooled rows: rare values are rewritten to
+    # str_default in the frame before the rates are computed from that frame
+    cfg0 = cfg_of(ctx, fi)
+    rewrites = [n for n in walk_no_nested(fi.node) if isinstance(n, ast.Assign) and isinstance(n.targets[0], ast.Subscript) and ".loc" in unparse(n.targets[0].value)
+                and "isin(values_to_group)" in unparse(n.targets[0]).replace(" ", "") and unparse(n.value) == "self.str_default"]
+    okp = len(tr) == 1 and len(rewrites) == 1 and rewrites[0].lineno < tr[0].lineno and unparse(rewrites[0].targets[0].value).split(".loc")[0] in unparse(tr[0].value)
+    ctx.ob(rule, construct(fi, "the default group is ranked by the pooled target rate of its rows (rare values rewritten in the frame the rates are computed from)"), okp, loc(fi, rewrites[0] if rewrites else None),
+           "" if okp else "rates of the rare values are combined in another way (e.g. a mean of their means): the default group can be placed between the wrong neighbours")
     sb = [c for c in calls(fi, "sort_by")]
     ok = len(sb) == 1 and unparse(sb[0].args[0]) == "new_order"
     par = cfg_of(ctx, fi).parent(sb[0]) if sb else None
